@@ -62,6 +62,8 @@ type Model struct {
 	OutStatus map[string]Status
 	OutData   map[string]any
 	OutFault  map[string]*Fault
+
+	strictStuck bool
 }
 
 // Options tweak the reference for known engine behaviours (documented in DESIGN).
@@ -69,7 +71,19 @@ type Options struct{}
 
 // NewModel evaluates the reference for a program, a normalised input and a script.
 func NewModel(prog *Program, subs map[string]*Program, input map[string]any, script vplug.Script, observed map[string]string) *Model {
-	m := &Model{Prog: prog, Subs: subs, Input: input, Script: script, Observed: observed,
+	return newModel(prog, subs, input, script, observed, false)
+}
+
+// NewStrictModel is NewModel except that the stages a step stuck waiting for input could reach only
+// when the run closes it (closed, crashed, deploy_failed; failed / closed of a loop) count as not
+// producible during the run instead of pending. Where the two models differ the run can only end
+// through the engine's fallback detector (open finding K14).
+func NewStrictModel(prog *Program, subs map[string]*Program, input map[string]any, script vplug.Script, observed map[string]string) *Model {
+	return newModel(prog, subs, input, script, observed, true)
+}
+
+func newModel(prog *Program, subs map[string]*Program, input map[string]any, script vplug.Script, observed map[string]string, strict bool) *Model {
+	m := &Model{strictStuck: strict, Prog: prog, Subs: subs, Input: input, Script: script, Observed: observed,
 		Nodes: map[string]Status{}, Data: map[string]any{}, Fates: map[string]*StepFate{},
 		OutStatus: map[string]Status{}, OutData: map[string]any{}, OutFault: map[string]*Fault{}}
 	for _, s := range prog.Steps {
@@ -695,7 +709,11 @@ func (m *Model) evalPlugin(s *Step) {
 			// closes the step. A wait-optional field on them is therefore never evaluated.
 			for _, st := range []string{"closed", "crashed", "deploy_failed"} {
 				if _, set := m.Nodes["steps."+id+"."+st]; !set {
-					m.set(id, st, Pending)
+					if m.strictStuck {
+						m.set(id, st, Dead)
+					} else {
+						m.set(id, st, Pending)
+					}
 				}
 			}
 			// Stuck before deployment: the enabling stage simply never happens; unless its own
@@ -870,8 +888,13 @@ func (m *Model) evalForeach(s *Step) {
 	if st != Produced {
 		if st == Dead {
 			// stuck waiting for its execute input: failed / closed stay pending (see evalPlugin)
-			m.set(id, "failed", Pending)
-			m.set(id, "closed", Pending)
+			if m.strictStuck {
+				m.set(id, "failed", Dead)
+				m.set(id, "closed", Dead)
+			} else {
+				m.set(id, "failed", Pending)
+				m.set(id, "closed", Pending)
+			}
 		}
 		done(st)
 		return
@@ -902,7 +925,7 @@ func (m *Model) evalForeach(s *Step) {
 	pending := false
 	for i, it := range items {
 		itemIn, _ := it.(map[string]any)
-		im := NewModel(sub, m.Subs, NormalizeInput(sub, itemIn), m.Script, m.Observed)
+		im := newModel(sub, m.Subs, NormalizeInput(sub, itemIn), m.Script, m.Observed, m.strictStuck)
 		fate.ItemModels = append(fate.ItemModels, im)
 		switch {
 		case im.OutStatus["success"] == Produced && im.OutFault["success"] == nil && onlyProducible(im, "success"):
